@@ -73,6 +73,10 @@ func main() {
 		defer xsync.VerifSetHook(nil)
 		n := r.Scale(2500, 50000)
 		r.Cases("round", n, 1, func(c *vkit.Case) { runRound(c) })
+		// PeriodicOrTrigger with a tiny interval under trigger load: the periodic runs must go on after
+		// the triggers stop (a mishandled timer Stop/Reset under trigger load leaves the timer dead).
+		r.Cases("pot-small", r.Scale(24, 300), 1, func(c *vkit.Case) { potSmall(c) })
+		r.Floor("PeriodicOrTrigger rounds with a tiny interval under trigger load", r.Table("pot-small", "rounds"), 10)
 		r.Floor("registrations that raced the stop call", r.Table("races", "registration overlapping or after the stop call"), 200)
 		r.Floor("trigger calls made while a run was in progress", r.Table("triggers", "call during a run"), 200)
 		r.Floor("settle rounds", r.Table("rounds", "settle"), int64(n/4))
@@ -500,4 +504,73 @@ func describe(rd *round) []map[string]any {
 		g.mu.Unlock()
 	}
 	return out
+}
+
+// potSmall: PeriodicOrTrigger(interval 10..50us) is hammered with trigger calls from two goroutines
+// for a while; then the triggers stop and the function must keep being invoked by its timer.
+// "Keeps being invoked" is judged in bounded form against a CONTROL time.Ticker with the same
+// interval running in the harness: if the control ticker delivers 20000 ticks (timers and scheduler
+// demonstrably work) while f does not run even once, the periodic invocation is dead.
+func potSmall(c *vkit.Case) {
+	r := c.R
+	rnd := c.Rand
+	interval := time.Duration([]int{10, 20, 50}[c.Index%3]) * time.Microsecond
+	jitter := interval / 4
+	grp := xsync.NewGroup(context.Background())
+	var runs atomic.Int64
+	var gauge vkit.Gauge
+	fire := grp.PeriodicOrTrigger(interval, jitter, func(ctx context.Context) {
+		gauge.Enter()
+		runs.Add(1)
+		gauge.Exit()
+	})
+	var wg sync.WaitGroup
+	stopHammer := make(chan struct{})
+	for h := 0; h < 2; h++ {
+		p := vkit.NewPerturber(rnd.Split(), 11, 0.3)
+		wg.Add(1)
+		go func() {
+			defer wg.Done()
+			for {
+				select {
+				case <-stopHammer:
+					return
+				default:
+				}
+				fire()
+				p.Do()
+			}
+		}()
+	}
+	time.Sleep(time.Duration(rnd.Range(5, 25)) * time.Millisecond)
+	close(stopHammer)
+	wg.Wait()
+	during := runs.Load()
+	// settle: one run may still be owed to the last trigger
+	time.Sleep(2 * time.Millisecond)
+	base := runs.Load()
+	control := time.NewTicker(interval)
+	ticks := 0
+	for runs.Load() < base+3 && ticks < 20000 {
+		<-control.C
+		ticks++
+	}
+	control.Stop()
+	after := runs.Load() - base
+	r.Eval(1)
+	r.Count("pot-small", "rounds", 1)
+	r.Count("pot-small", "runs under trigger load", int(during))
+	if gauge.Max() > 1 {
+		c.Violation("overlap", fmt.Sprintf("pot-small: %d runs of the same f were in progress at the same time", gauge.Max()), nil)
+	} else if after < 3 {
+		c.Violation("periodic-stalled", fmt.Sprintf("PeriodicOrTrigger(interval %s): after the trigger calls stopped (f had run %d times), f ran %d more times while a control ticker with the same interval delivered %d ticks; the group had not been stopped",
+			interval, base, after, ticks), map[string]any{"interval": interval.String()})
+	} else {
+		r.Count("pot-small", "periodic runs resumed after the triggers stopped", 1)
+	}
+	done := make(chan struct{})
+	go func() { grp.StopAndWait(); close(done) }()
+	if v, dump := vkit.Await(done, vkit.AwaitOpts{Soft: 5 * time.Second, Gap: 300 * time.Millisecond, Hard: 60 * time.Second, Relevant: relevant}); v == vkit.AwaitStuck {
+		c.Violation("stop-stuck", "pot-small: StopAndWait never returned", map[string]any{"goroutines": dump})
+	}
 }
